@@ -236,8 +236,21 @@ def o4(run, project):
     run.require(n >= 3, "O4: tpm_enum.__init__ has fewer than three outcomes")
     # _INT text form delegates to the wrapped value
     base = project.module(BASE)
-    st = base.functions().get("_INT.__str__")
-    ok = st is not None and [norm(s) for s in walk_no_nested(st) if isinstance(s, ast.Return)] == ["return str(self._value)"]
-    run.ob("O4", ok, "_INT text form is the wrapped value's", "_INT.__str__ no longer returns str(self._value)", module=base,
+    # the text form of a protocol integer: `numeric` installs __str__ on the class unconditionally (a __str__ written in the
+    # body of _INT is replaced by it), so that is the one that counts: str(int(self))
+    num = base.functions().get("numeric")
+    inst = [c_ for c_ in (walk_no_nested(num) if num is not None else []) if isinstance(c_, ast.Call) and call_name(c_) == "setattr"
+            and len(c_.args) == 3 and isinstance(c_.args[1], ast.Constant) and c_.args[1].value == "__str__"
+            and not isinstance(getattr(getattr(c_, "_parent", None), "_parent", None), ast.If)]
+    if inst:
+        fdef = base.functions().get(f"numeric.{norm(inst[0].args[2])}")
+        ok = fdef is not None and [norm(s_) for s_ in walk_no_nested(fdef) if isinstance(s_, ast.Return)] == ["return str(int(self))"]
+        st = fdef
+        why = "the __str__ installed by numeric() no longer returns str(int(self))"
+    else:
+        st = base.functions().get("_INT.__str__")
+        ok = st is not None and [norm(s_) for s_ in walk_no_nested(st) if isinstance(s_, ast.Return)] == ["return str(self._value)"]
+        why = "_INT.__str__ no longer returns str(self._value)"
+    run.ob("O4", ok, "the text form of a protocol integer is the wrapped value's", why, module=base,
            node=st or base.tree, func="_INT.__str__", construct="_INT.__str__")
     pass  # (membership is part of namedrange.check above)
